@@ -158,6 +158,14 @@ def parse_template(path):
                     cur = Block(word, rest, i + 1)
                 elif word == "lemma":
                     meta.setdefault("lemmas", []).append(rest)
+                elif word == "harness":
+                    meta.setdefault("harnesses", []).append(rest)
+                elif word == "kaniflags":
+                    meta.setdefault("kaniflags", []).extend(rest.split())
+                elif word == "dep":
+                    meta.setdefault("deps", []).append(rest)
+                elif word == "file":
+                    meta.setdefault("files", []).append((rest, heredoc or ""))
                 else:
                     raise GenError("%s:%d: unknown directive %s" % (path, i + 1, word))
             else:
